@@ -82,8 +82,12 @@ def fd_step(V, lam, tail, G, k, decay):
 
 
 # ------------------------------------------------------------------ application of stored second-order state
-def apply_stored(kind, so_state, key, g, merge_dims, block, masked_tree=None):
-  """Second-order direction for one leaf from the *real* stored state (roots / sketches)."""
+def apply_stored(kind, so_state, key, g, merge_dims, block, masked_tree=None, with_bound=False):
+  """Second-order direction for one leaf from the *real* stored state (roots / sketches).
+
+  with_bound=True additionally returns a componentwise forward error bound for float32 arithmetic
+  (8 * (sum of dims) * 2^-24 * |P_1| x_1 |P_2| x_2 ... |g|), which matters when the complement weight of a
+  sketch is much larger than its in-sketch weights (cancellation in g - V V' g)."""
   g = np.asarray(g, F)
   shape = g.shape
   ms = merged_shape(shape, merge_dims)
@@ -102,9 +106,19 @@ def apply_stored(kind, so_state, key, g, merge_dims, block, masked_tree=None):
         sub = np.moveaxis(np.tensordot(roots[ax][n], sub, axes=([1], [ax])), 0, ax)
       out[sl] = sub
     out = out[tuple(slice(0, s) for s in ms)]
+    if with_bound:
+      ab = np.abs(x)
+      for ax in range(len(ps)):
+        # bound with the entrywise-largest root over blocks (conservative)
+        pa = np.max(np.abs(roots[ax]), axis=0)
+        pa_full = np.kron(np.eye(ps[ax] // pa.shape[0]), pa) if ps[ax] != pa.shape[0] else pa
+        ab = np.moveaxis(np.tensordot(pa_full, ab, axes=([1], [ax])), 0, ax)
+      bnd = 8.0 * (sum(ps) + 2) * 2.0 ** -24 * ab[tuple(slice(0, s) for s in ms)]
+      return out.reshape(shape), bnd.reshape(shape) + 1e-44
     return out.reshape(shape)
   axes = so_state.sketches[key].axes
   x = gm
+  ab = np.abs(gm)
   for ax, st in enumerate(axes):
     V = np.asarray(st.eigvecs, F)
     inv = np.asarray(st.inv_eigvals, F)
@@ -115,6 +129,12 @@ def apply_stored(kind, so_state, key, g, merge_dims, block, masked_tree=None):
     low = V.T @ m2
     res = V @ (inv[:, None] * low) + it * (m2 - V @ low)
     x = np.moveaxis(res.reshape(sh), 0, ax)
+    aV = np.abs(V)
+    Dabs = abs(it) * (np.eye(V.shape[0]) + aV @ aV.T) + (aV * np.abs(inv)) @ aV.T
+    ab = np.moveaxis(np.tensordot(Dabs, ab, axes=([1], [ax])), 0, ax)
+  if with_bound:
+    bnd = 8.0 * (sum(ms) + 2 * len(ms) + 2) * 2.0 ** -24 * ab
+    return x.reshape(shape), bnd.reshape(shape) + 1e-44
   return x.reshape(shape)
 
 
